@@ -218,4 +218,13 @@ def sealToken (S : Scheme) (c : Container) : Option Container :=
     let last := c.lastBlock
     some { c with proof := .sealed (S.sign last.nextKey.alg sk (sealPayload last)) }
 
+/-- `Biscuit::append_third_party`: the response (block bytes + external signature) is accepted
+    only for the key the caller expects and only if the signature verifies over the block bytes
+    and the signature of the block the token currently ends with -/
+def appendThirdParty (S : Scheme) (c : Container) (expected : PubKey) (data : Bytes) (resp : ExtSig)
+    (nextAlg : Nat) (nextSk : Bytes) : Option Container :=
+  if resp.key = expected ∧ S.verify resp.key (externalPayload ⟨data, c.lastBlock.nextKey, [], some resp, some Gen.thirdPartySignatureVersion⟩ c.lastBlock.sig) resp.sig = true
+  then appendBlock S c nextAlg nextSk data (some resp) none
+  else none
+
 end Biscuit
